@@ -136,6 +136,41 @@ def _is_continue_guard(s):
     return isinstance(s, ast.If) and not s.orelse and len(s.body) == 1 and isinstance(s.body[0], ast.Continue)
 
 
+def _sum_loop(init, loop):
+    """`X = 0` followed by `for T in IT: X += E`  ->  `X = sum(E for T in IT)`"""
+    tgt = init.targets[0] if isinstance(init, ast.Assign) and len(init.targets) == 1 else (init.target if isinstance(init, ast.AnnAssign) else None)
+    if not (isinstance(tgt, ast.Name) and isinstance(init.value, ast.Constant) and init.value.value == 0 and type(init.value.value) is int):
+        return None
+    if not (isinstance(loop, ast.For) and not loop.orelse and len(loop.body) == 1):
+        return None
+    st = _self_add(loop.body[0])
+    mentions = lambda e: any(isinstance(n, ast.Name) and n.id == tgt.id for n in ast.walk(e))  # noqa: E731
+    if not (isinstance(st, ast.AugAssign) and isinstance(st.op, ast.Add) and isinstance(st.target, ast.Name) and st.target.id == tgt.id and not mentions(st.value) and not mentions(loop.iter)):
+        return None
+    gen = ast.GeneratorExp(elt=st.value, generators=[ast.comprehension(target=loop.target, iter=loop.iter, ifs=[], is_async=0)])
+    new = ast.Assign(targets=[ast.Name(id=tgt.id, ctx=ast.Store())], value=ast.Call(func=ast.Name(id="sum", ctx=ast.Load()), args=[gen], keywords=[]))
+    return ast.fix_missing_locations(ast.copy_location(new, loop))
+
+
+def _quantifier_loop(loop, nxt):
+    """`for T in IT: if C: return False` followed by `return True`  ->  `return all(not C for T in IT)`   (and the dual with any)"""
+    if not (isinstance(loop, ast.For) and not loop.orelse and len(loop.body) == 1 and isinstance(nxt, ast.Return) and isinstance(nxt.value, ast.Constant)
+            and isinstance(nxt.value.value, bool)):
+        return None
+    g = loop.body[0]
+    if not (isinstance(g, ast.If) and not g.orelse and len(g.body) == 1 and isinstance(g.body[0], ast.Return) and isinstance(g.body[0].value, ast.Constant)
+            and isinstance(g.body[0].value.value, bool) and g.body[0].value.value != nxt.value.value):
+        return None
+    if nxt.value.value:     # falls through to True: all(not C)
+        elt = g.test.operand if isinstance(g.test, ast.UnaryOp) and isinstance(g.test.op, ast.Not) else ast.UnaryOp(op=ast.Not(), operand=g.test)
+        fn = "all"
+    else:
+        elt, fn = g.test, "any"
+    gen = ast.GeneratorExp(elt=elt, generators=[ast.comprehension(target=loop.target, iter=loop.iter, ifs=[], is_async=0)])
+    new = ast.Return(value=ast.Call(func=ast.Name(id=fn, ctx=ast.Load()), args=[gen], keywords=[]))
+    return ast.fix_missing_locations(ast.copy_location(new, loop))
+
+
 def _append_loop(init, loop):
     """`X = []` / `X = {}` (or annotated) followed by a nest `for v in IT: [for w in IT2: ...] [if C:] X.append(E)` / `X.extend(E)` / `X[K] = E`
     ->  the comprehension assigned to X, or None"""
@@ -148,7 +183,8 @@ def _append_loop(init, loop):
     mentions = lambda e: any(isinstance(n, ast.Name) and n.id == tgt.id for n in ast.walk(e))  # noqa: E731
     gens, st = [], loop
     while isinstance(st, ast.For):
-        if st.orelse or not isinstance(st.target, ast.Name) or len(st.body) != 1 or mentions(st.iter):
+        tnames = [st.target] if isinstance(st.target, ast.Name) else (st.target.elts if isinstance(st.target, ast.Tuple) else [None])
+        if st.orelse or not all(isinstance(x, ast.Name) for x in tnames) or len(st.body) != 1 or mentions(st.iter):
             return None
         gens.append(ast.comprehension(target=st.target, iter=st.iter, ifs=[], is_async=0))
         st = st.body[0]
@@ -207,9 +243,45 @@ def _dict_view_loop(s):
     return ast.fix_missing_locations(ast.copy_location(new, s))
 
 
-def normalise_block(stmts, in_loop=False):
+def _self_add(s):
+    """`X = X + E`  ->  `X += E`  for a name or attribute X (numbers: the two are the same)"""
+    if isinstance(s, ast.Assign) and len(s.targets) == 1 and isinstance(s.targets[0], (ast.Name, ast.Attribute)) and isinstance(s.value, ast.BinOp) \
+            and isinstance(s.value.op, ast.Add) and ast.unparse(s.value.left) == ast.unparse(s.targets[0]):
+        return ast.fix_missing_locations(ast.copy_location(ast.AugAssign(target=s.targets[0], op=ast.Add(), value=s.value.right), s))
+    return s
+
+
+def _while_true_break(s):
+    """`while True: if C: break; rest`  ->  `while not C: rest`   (no other break / continue in rest)"""
+    if not (isinstance(s, ast.While) and isinstance(s.test, ast.Constant) and s.test.value is True and not s.orelse and len(s.body) >= 2):
+        return s
+    g = s.body[0]
+    if not (isinstance(g, ast.If) and not g.orelse and len(g.body) == 1 and isinstance(g.body[0], ast.Break)):
+        return s
+
+    def jumps(stmts):
+        for st in stmts:
+            if isinstance(st, (ast.Break, ast.Continue)):
+                return True
+            if isinstance(st, (ast.For, ast.While, ast.FunctionDef)):
+                continue
+            for fld in ("body", "orelse", "finalbody"):
+                sub = getattr(st, fld, None)
+                if isinstance(sub, list) and sub and isinstance(sub[0], ast.stmt) and jumps(sub):
+                    return True
+        return False
+    if jumps(s.body[1:]):
+        return s
+    neg = g.test.operand if isinstance(g.test, ast.UnaryOp) and isinstance(g.test.op, ast.Not) else ast.UnaryOp(op=ast.Not(), operand=g.test)
+    return ast.fix_missing_locations(ast.copy_location(ast.While(test=neg, body=s.body[1:], orelse=[]), s))
+
+
+def normalise_block(stmts, in_loop=False, dict_views=True, sums=True):
     """behaviour-preserving reshaping of a statement list into the forms the translators know:
        * inside a loop body, `if T: continue` followed by the rest  ->  `if not T: <rest>`
+       * `X = X + E` -> `X += E`;  `while True: if C: break; rest` -> `while not C: rest`
+       * `X = 0` directly followed by a loop that only does `X += E`  ->  `X = sum(E for ...)`
+       * `for T in IT: if C: return False` directly followed by `return True`  ->  `return all(not C for T in IT)`  (dually any)
        * `for v in D.values()` / `for k, v in D.items()`  ->  `for k in D.keys()` with D[k] for v
        * `X = []` / `X = {}` directly followed by a loop nest that only appends to / extends / sets one key of X  ->  `X = <comprehension>`
          (a dict built by distinct keys in loop order is the dict comprehension; a repeated key keeps its first position and last value in both)"""
@@ -219,19 +291,26 @@ def normalise_block(stmts, in_loop=False):
     while i < len(stmts):
         s = stmts[i]
         if in_loop and _is_continue_guard(s) and i + 1 < len(stmts):
-            rest = normalise_block(stmts[i + 1:], in_loop)
+            rest = normalise_block(stmts[i + 1:], in_loop, dict_views, sums)
             neg = s.test.operand if isinstance(s.test, ast.UnaryOp) and isinstance(s.test.op, ast.Not) else ast.UnaryOp(op=ast.Not(), operand=s.test)
             new = ast.If(test=neg, body=rest, orelse=[])
             out.append(ast.fix_missing_locations(ast.copy_location(new, s)))
             return out
-        if isinstance(s, ast.For):
+        if isinstance(s, ast.For) and dict_views:
             s = _dict_view_loop(s)
+        s = _self_add(_while_true_break(s))
         for fld in ("body", "orelse"):
             sub = getattr(s, fld, None)
             if isinstance(sub, list) and sub and isinstance(sub[0], ast.stmt) and not isinstance(s, (ast.FunctionDef, ast.ClassDef)):
-                setattr(s, fld, normalise_block(sub, in_loop or (fld == "body" and isinstance(s, (ast.For, ast.While)))))
+                setattr(s, fld, normalise_block(sub, in_loop or (fld == "body" and isinstance(s, (ast.For, ast.While))), dict_views, sums))
+        if out and isinstance(out[-1], ast.For):
+            q = _quantifier_loop(out[-1], s)
+            if q is not None:
+                out[-1] = q
+                i += 1
+                continue
         if out and isinstance(out[-1], (ast.Assign, ast.AnnAssign)) and out[-1].value is not None:
-            comp = _append_loop(out[-1], s)
+            comp = _append_loop(out[-1], s) or (_sum_loop(out[-1], s) if sums else None)
             if comp is not None:
                 out[-1] = comp
                 i += 1
@@ -241,6 +320,6 @@ def normalise_block(stmts, in_loop=False):
     return out
 
 
-def normalise(fn):
-    fn.body = normalise_block(fn.body)
+def normalise(fn, dict_views=True, sums=True):
+    fn.body = normalise_block(fn.body, False, dict_views, sums)
     return fn
